@@ -406,7 +406,22 @@ class ListSim:
             if i in self.alive:
                 self.alive.remove(i)
             return None
+        def retire_all(t, it):
+            # the handler-level retire: the element's expectation leaves EVERY sequence it is registered in
+            recv = _args(t)[0]
+            base = recv
+            while isinstance(base, list) and base and base[0] == "member":
+                base = base[2]
+            try:
+                i = elem_of(["call", -1, "", [base]], it)
+            except Unknown:
+                raise Unknown("handler-level retire on %r" % (recv[:2],))
+            self.log.append(("retire_all", i))
+            if i in self.alive:
+                self.alive.remove(i)
+            return None
         d = {
+            "trompeloeil::sequence_handler_base::retire": retire_all, "trompeloeil::sequence_handler::retire": retire_all,
             "trompeloeil::list::begin": begin, "trompeloeil::list::end": end, "trompeloeil::list::empty": empty,
             "trompeloeil::list::iterator::operator*": deref, "trompeloeil::list::iterator::operator->": arrow,
             "trompeloeil::list::iterator::operator++": inc, "trompeloeil::operator!=": cmp(True),
